@@ -91,6 +91,9 @@ def add_node_requires(W, s0, env):
         ("pixels-lie-in-the-node's-frame", IMP(has(K.tk), core.t == iv(C.norm_val(at(K.tk)))), ("C07", "C01")),
         ("paints-onto-background(documented)", forall([p_], IMP(core.mem(p_), s0.v.Seg(core.t, p_) == 0)), ("C07", "C01")),
         ("node-id-is-not-the-background-label", node != 0, ("C07",)),
+        ("node-is-new", z3.Not(s0.v.N(node)), ("C07",)),
+        ("at-least-one-pixel", z3.Exists([p_], core.mem(p_)), ("C07",)),
+        ("time-is-given", has(K.tk), ("C07",)),
     ]
 
 
